@@ -12,7 +12,7 @@ dense density matrix 2^-N prod (1+S_a), evaluated for EVERY sign pattern of the 
 import itertools
 import functools
 import numpy as np
-from .. import ref, dom, lib
+from .. import ref, dom, lib, stab
 from ..core import Leg, V
 
 PROP = 'C08'
@@ -30,7 +30,7 @@ ASSUMPTIONS = ['numpy eigvalsh / kron / trace on matrices up to 32x32 are correc
                'valid tableau by the check (verified against the tableau invariant for every state built)']
 
 EPS = 1e-6
-FORMATS = ('list', 'tuple', 'intarray', 'boolmask', 'revlist')
+FORMATS = ('list', 'tuple', 'intarray', 'boolmask', 'revlist', 'duplist')
 GL_ORDER = {0: 1, 1: 1, 2: 6, 3: 168, 4: 20160}
 
 
@@ -219,6 +219,8 @@ def fmt_arg(fmt, A, N):
         return np.array(A, dtype=np.int_)
     if fmt == 'revlist':
         return A[::-1]
+    if fmt == 'duplist':      # the same set with one index listed twice (not adjacent when there are >= 2 entries)
+        return A + [A[0]]
     if fmt == 'boolmask':
         m = np.zeros(N, dtype=np.bool_)
         for q in A:
@@ -348,7 +350,7 @@ def fn_groups(items):
                     if 0 < len(A) < N and _crossing(N, lst, A):
                         nt += 1
                     for fmt in fmts:
-                        if fmt == 'revlist' and len(A) < 2:
+                        if (fmt == 'revlist' and len(A) < 2) or (fmt == 'duplist' and len(A) < 1):
                             continue
                         n += 1
                         try:
@@ -432,6 +434,50 @@ def fn_groups(items):
                             N, ','.join(ref.g_to_str(_G(N)[x]) for x in basis), A, sorted(per_sub[si])), sorted(per_sub[si]), E[si])
         viol.extend(acc.out())
     return {'n': n, 'nt': nt, 'viol': viol, 'keys': keys, 'samples': samples, 'extra': extra}
+
+
+# ---------------------------------------------------------------- live objects: entropy -> in-place operation -> entropy
+def fn_live(items):
+    """item = [N, idx, lo, hi]: every subsystem's entropy is asked of ONE live state object (index and mask formats),
+    then an in-place operation of the C05 menu (rotations, maps, gates, measurements on every coin branch,
+    post-selection, projections) is applied, and the entropies asked again must equal those of a fresh object
+    built from the live object's arrays -- the dense oracle is applied to that fresh state in leg lists_*."""
+    from . import c05
+    n = nt = 0
+    viol = []
+    for N, idx, lo, hi in items:
+        gs0, ps0, r0 = stab.tableaux(N)[idx]
+        menu = c05.get_menu(N, 'quick')
+        subs = dom.subsets(N)
+
+        def ask(s_):
+            out = {}
+            for A in subs:
+                out['entropy(%s)' % (list(A),)] = _num(s_.entropy(list(A))) if A else None
+                out['entropy(mask %s)' % (list(A),)] = _num(s_.entropy(fmt_arg('boolmask', A, N)))
+            return out
+        for k in range(lo, min(hi, len(menu))):
+            cls, label, f = menu[k]
+            st = lib.ST(gs0, ps0, r0)
+            q0 = ask(st)
+            try:
+                if f(st) == 'skip':
+                    continue
+            except Exception:
+                continue            # failing operations are judged by C05
+            if stab.state_check(st, N):
+                continue            # invalid successors are judged by C05
+            fresh = lib.ST(np.array(st.gs), np.array(st.ps), int(st.r))
+            q1, q2 = ask(st), ask(fresh)
+            n += len(q1)
+            nt += int(q0 != q2)
+            for key in q2:
+                a, b = q1[key], q2[key]
+                if a != b and not (a is not None and b is not None and abs(a - b) < EPS):
+                    viol.append(V('C08/live/stale-after-%s' % cls, [N, idx, k, k + 1], '%s after %s on a live object whose entropies had been asked before gives %r, a fresh object with identical arrays gives %r (%s)' % (
+                        key, label, a, b, stab.describe(st.gs, st.ps, int(st.r))), a, b))
+                    break
+    return {'n': n, 'nt': nt, 'viol': viol}
 
 
 # ---------------------------------------------------------------- states built by the library's own constructor
@@ -682,6 +728,15 @@ def legs(tier):
         step = 4096
         for s in range(0, tot, step):
             zi.append([nr, nc, s, min(step, tot - s)])
+    quick = tier == 'quick'
+    from . import c05
+    stab.tableaux(2)
+    m2 = len(c05.get_menu(2, 'quick'))
+    t2 = range(0, 34560, 1151 if quick else 97)
+    litems = [[1, i, 0, 10 ** 6] for i in range(48)] + [[2, i, lo, lo + 80] for i in t2 for lo in range(0, m2, 80)]
+    out.append(Leg('live_histories', fn_live, litems, chunk=2,
+                   bound='entropy of all subsystems -> one in-place operation (whole C05 menu, all coin branches) -> entropy again on ONE object vs a fresh object with the same arrays: '
+                         'all 48 N=1 tableaux, every %dth of the 34560 N=2 tableaux (%d)' % (1151 if quick else 97, len(list(t2)))))
     out.append(Leg('z2rank', fn_z2rank, zi, chunk=2, bound='utils.z2rank on ALL binary matrices of the shapes %s' % (shapes,)))
     if tier != 'quick':
         n4 = [(4, (0, 1, 2, 3))]
